@@ -140,6 +140,22 @@ func (p *Program) Extract(s Site) (val string, pos string, fn *ssa.Function, err
 		}
 		return short(ctb.Term(args[k]).String()), p.pos(instrPos(c)), fn, nil
 	case "facts":
+		if strings.HasPrefix(parts[1], "errret#") {
+			// facts at the n-th (1-based) return that carries a non-nil error
+			n, _ := strconv.Atoi(strings.TrimPrefix(parts[1], "errret#"))
+			ei := errorResultIndex(fn.Signature)
+			k := 0
+			for _, ret := range returnsOf(fn) {
+				if ei < 0 || isNilConst(resultsOf(ret)[ei]) {
+					continue
+				}
+				k++
+				if k == n {
+					return sortedFacts(tb.FactsAt(ret.Block())), p.pos(instrPos(ret)), fn, nil
+				}
+			}
+			return "", "", fn, fmt.Errorf("fewer than %d error returns", n)
+		}
 		if parts[1] == "ret" {
 			ret, e := successReturn(fn)
 			if e != nil {
